@@ -283,6 +283,11 @@ func (f *Facts) transferBlock(b *ssa.BasicBlock, cur *pstate, stop ssa.Instructi
 					}
 				}
 			}
+			if x.Op == token.ARROW {
+				if l := "recv:" + f.tr.term(cur, x.X, 0); f.keepLit(l) {
+					cur.lits[l] = true
+				}
+			}
 		case *ssa.Call:
 			f.addCallFacts(cur, &x.Call, "call:")
 		case *ssa.Defer:
@@ -678,7 +683,7 @@ func allHave(states []*pstate, re *regexp.Regexp) (bool, string) {
 func guardLits(s *pstate) []string {
 	var out []string
 	for _, l := range s.Lits() {
-		if strings.HasPrefix(l, "call:") || strings.HasPrefix(l, "called:") || strings.HasPrefix(l, "defer:") || strings.HasPrefix(l, "go:") {
+		if strings.HasPrefix(l, "call:") || strings.HasPrefix(l, "called:") || strings.HasPrefix(l, "defer:") || strings.HasPrefix(l, "go:") || strings.HasPrefix(l, "recv:") {
 			continue
 		}
 		out = append(out, l)
@@ -696,6 +701,7 @@ type termRenderer struct {
 	singleStore bool
 	// callOrd: ordinal of calls to impure producers (Stack.pop, intPool.get) so that distinct results get distinct terms
 	callOrd map[*ssa.Call]int
+	phiOrd  map[*ssa.Phi]int
 }
 
 func impureProducer(c *ssa.CallCommon) string {
@@ -722,6 +728,16 @@ func newTermRenderer(fn *ssa.Function) *termRenderer {
 				ts := typeShort(a.Type())
 				acnt[ts]++
 				t.allocOrd[a] = acnt[ts]
+			}
+		}
+	}
+	t.phiOrd = map[*ssa.Phi]int{}
+	phcnt := map[string]int{}
+	for _, b := range fn.Blocks {
+		for _, ins := range b.Instrs {
+			if p, ok := ins.(*ssa.Phi); ok {
+				phcnt[p.Comment]++
+				t.phiOrd[p] = phcnt[p.Comment]
 			}
 		}
 	}
@@ -804,6 +820,9 @@ func (t *termRenderer) term(s *pstate, v ssa.Value, d int) string {
 		}
 		return r
 	case *ssa.Phi:
+		if o := t.phiOrd[x]; o > 1 {
+			return fmt.Sprintf("phi:%s~%d", x.Comment, o)
+		}
 		return "phi:" + x.Comment
 	case *ssa.Slice:
 		// variadic argument packs: new([N]T)[:] with constant-index stores -> [e0, e1, ...]
